@@ -398,6 +398,17 @@ def run(ctx):
                             if any(c.endswith('check_value') for c in cs) and set(dict(tt['ts']).keys()) == {'0'}:
                                 if must_pass(b, (0, 0), [site], through=(), avoid_edges={(q[0], tt['else'])}):
                                     g = True
+            if not g:
+                # several validations, each guarding its own way to the store (value as it is / value converted to text): no path
+                # reaches the store once the true edge of every check_value test is removed
+                cut_ = set()
+                for q, tt in b.iter_terms():
+                    if tt['k'] == 'switch' and is_local_op(tt['d']) and not tt['d']['p'] and set(dict(tt['ts']).keys()) == {'0'}:
+                        nm, cs, _ = all_sources(b, tt['d'], depth=6)
+                        if any(c.endswith('check_value') for c in cs):
+                            cut_.add((q[0], tt['else']))
+                if cut_ and must_pass(b, (0, 0), [site], through=(), avoid_edges=cut_):
+                    g = True
             if g:
                 C.ok('C07-MUST-value', '%s|chardata-%s|validated' % key, 'behind check_value', sample={'fn': b.short, 'store': o['op'], 'guard': 'CharacterData::check_value'} if n_val % 3 == 1 else None)
             elif key in reviewed_value:
@@ -507,6 +518,10 @@ def run(ctx):
         for x in P.with_closures(b):
             for cp in calls(x, r'ElementMultiplicity as .*PartialEq>::(eq|ne)$'):
                 okm = True
+            # `!=` on a derived PartialEq resolves to the trait's default `ne`: recognise it by the type of its operands
+            for cp in calls(x, r'cmp::PartialEq::(eq|ne)$'):
+                if any(is_local_op(a) and 'ElementMultiplicity' in (x.local_ty(a['l']) or '') for a in x.blocks[cp[0]]['term']['args']):
+                    okm = True
             for pos, tt in x.iter_terms():
                 if tt['k'] == 'switch' and is_local_op(tt['d']) and any(c.endswith('get_sub_element_multiplicity') for c in all_sources(x, tt['d'], depth=8)[1]):
                     okm = True
